@@ -8,16 +8,18 @@
      - every field of every opcode type reads back as written, within the stated ranges;
      - the register allocator never hands out a register that does not fit its field
        and fails only with a CompilationPanic (= compile error), for every history;
-     - a request within a limit is encoded exactly; the register limit is a compile error;
-     - REFUTED on the code as it stands: every other limit is a Go panic that escapes
-       (constants, closures, vararg/multi-result index, table-constructor fill index,
-       close-stack height) or a silently truncated opcode (jump offsets), and the
-       program counter wraps after 32767 opcodes.
+     - a request within a limit is encoded exactly; a request beyond ANY limit (registers,
+       constants, closures, vararg/multi-result index, table-constructor fill index,
+       close-stack height, function length / jump distance) is a compile error — never a Go
+       panic, never a truncated opcode; in a function that passed the length check the int16
+       program counter and every jump are exact.
+       (Round 1 refuted this on the unrepaired code: string panics at four limits, int16
+       truncation of jumps and pc; the witnesses are now corpus/C04 cases replayed first.)
    NOT a theorem (explored by child processes in lib/props/C04.py): Go stack
    exhaustion, out-of-memory, the scanner/parser/AST compiler, the VM loop and the
    standard library. *)
 From Coq Require Import ZArith List Lia.
-From GV Require Import VM.Opcode VM.OpcodeProofs VM.Limits VM.LimitsProofs.
+From GV Require Import VM.Opcode VM.OpcodeProofs VM.Limits VM.LimitsProofs VM.Wf VM.WfProofs.
 Import ListNotations.
 Open Scope Z_scope.
 
@@ -146,53 +148,37 @@ Theorem C04_limit_in_range_encodes : forall r, req_wf r -> in_range r = true ->
 Proof. exact limit_in_range_encodes. Qed.
 Print Assumptions C04_limit_in_range_encodes.
 
-(* beyond the limit: what the code does today, for every request *)
-Theorem C04_limit_out_of_range_classified : forall r, req_wf r -> in_range r = false ->
-  compile r = match r with
-              | ReqReg _ => CompileError
-              | ReqJump opcode from to => Truncated (SetOffset opcode (s16 (to - from)))
-              | _ => Panic
-              end.
-Proof. exact limit_out_of_range_classified. Qed.
-Print Assumptions C04_limit_out_of_range_classified.
+(* beyond the limit: a compile error, for every limit *)
+Theorem C04_limit_is_compile_error : forall r, req_wf r -> in_range r = false ->
+  compile r = CompileError.
+Proof. exact limit_is_compile_error. Qed.
+Print Assumptions C04_limit_is_compile_error.
 
-(* the intended statement, true for the register limit only *)
-Theorem C04_limit_is_compile_error_partial : forall r, req_wf r -> is_reg_request r = true ->
-  in_range r = false -> compile r = CompileError.
-Proof. exact limit_is_compile_error_registers. Qed.
-Print Assumptions C04_limit_is_compile_error_partial.
+Theorem C04_compile_never_panics_nor_truncates : forall r, req_wf r ->
+  compile r <> Panic /\ forall w, compile r <> Truncated w.
+Proof. exact compile_never_panics_nor_truncates. Qed.
+Print Assumptions C04_compile_never_panics_nor_truncates.
 
-(* ... and false for every other limit *)
-Theorem C04_limit_is_compile_error_refuted :
-  exists r, req_wf r /\ in_range r = false /\ compile r = Panic.
-Proof. exact limit_is_compile_error_refuted_panic. Qed.
-Print Assumptions C04_limit_is_compile_error_refuted.
-
-Theorem C04_limit_is_compile_error_refuted_truncated :
-  exists r w, req_wf r /\ in_range r = false /\ compile r = Truncated w /\
-              match r with ReqJump _ from to => to - from = 40000 /\ GetOffset w = -25536 | _ => False end.
-Proof. exact limit_is_compile_error_refuted_truncated. Qed.
-Print Assumptions C04_limit_is_compile_error_refuted_truncated.
-
-Theorem C04_limit_never_compile_error_elsewhere_refuted : forall r, req_wf r -> is_reg_request r = false ->
-  in_range r = false ->
-  compile r <> CompileError /\ (compile r = Panic \/ exists w, compile r = Truncated w).
-Proof. exact limit_not_compile_error. Qed.
-Print Assumptions C04_limit_never_compile_error_elsewhere_refuted.
-
+(* why the length check is needed: the Builder's Offset(int) conversion is unchecked, and a distance
+   outside int16 would be stored as a different one *)
 Theorem C04_truncated_jump_is_wrong : forall opcode from to,
-  in_range (ReqJump opcode from to) = false ->
+  ~ (- 2^15 <= to - from < 2^15) ->
   GetOffset (SetOffset opcode (s16 (to - from))) <> to - from.
 Proof. exact truncated_jump_is_wrong. Qed.
 Print Assumptions C04_truncated_jump_is_wrong.
 
-(* the program counter of the VM *)
-Theorem C04_pc_exact_partial : forall pc off,
-  0 <= pc < 2^15 -> - 2^15 <= off < 2^15 -> 0 <= pc + off < 2^15 ->
-  pc_jump pc off = pc + off /\ (pc + 1 < 2^15 -> pc_next pc = pc + 1).
+(* the program counter of the VM, in any function that passed the length check *)
+Theorem C04_pc_exact : forall len pc target,
+  len <= maxCodeSize -> 0 <= pc < len -> 0 <= target <= len ->
+  pc_next pc = pc + 1 /\ pc_jump pc (target - pc) = target.
 Proof. exact pc_exact. Qed.
-Print Assumptions C04_pc_exact_partial.
+Print Assumptions C04_pc_exact.
 
-Theorem C04_pc_wraps_refuted : exists pc, 0 <= pc /\ pc_next pc = - 32768.
-Proof. exact pc_wraps_refuted. Qed.
-Print Assumptions C04_pc_wraps_refuted.
+(* ---------------------------------------------------------------- static check of compiled code *)
+(* In a function that passes check_code with some certificate S of reachable addresses (run by
+   the harness on every unit the real compiler emits), every address the VM's int16 pc can reach lies inside the code and the opcode there
+   indexes registers, cells and constants in range: no Go index panic from the code itself. *)
+Theorem C04_check_code_sound : forall f S, check_code f S = true ->
+  forall pc, reach f pc -> marked S pc = true /\ 0 <= pc < len f /\ safe_at f pc.
+Proof. exact check_code_sound. Qed.
+Print Assumptions C04_check_code_sound.
